@@ -482,6 +482,79 @@ fn run_resize_item(tag: &str, rtype: u16, wire: &[u8], l: &mut Local) -> bool {
 }
 
 // ------------------------------------------------------------------------------------------
+// family 8: every value of a fixed octet x consistent resize of a variable-length field
+
+fn run_f8_item(tag: &str, rtype: u16, wire: &[u8], thorough: bool, l: &mut Local) -> bool {
+    use c01::layout;
+    let Some(rd) = layout::rdata_layout(rtype, wire) else { return false };
+    let (tree, rd_at) = layout::message_tree(rtype, rd);
+    let mut t = Tally::default();
+    let mut msg: Vec<u8> = vec![];
+    let mut rdata: Vec<u8> = vec![];
+    let mut off = vec![];
+    layout::serialize(&tree[..5], &mut off);
+    let rec = Entry::Record { off: off.len() as u16 };
+    let entries: &[Entry] = if thorough { &[Entry::Message, Entry::Request, Entry::FrontDoor, Entry::TsigTbs] } else { &[Entry::Message] };
+    let n = layout::value_resize_family(&tree, rd_at, thorough, |tr| {
+        msg.clear();
+        if !layout::serialize(tr, &mut msg) || msg.len() > 65535 {
+            return;
+        }
+        for &e in entries {
+            judge(e, &msg, Some("work-bound:message"), false, &mut t, l, &|| byte_case(e, &msg));
+        }
+        judge(rec, &msg, Some("work-bound:record"), false, &mut t, l, &|| byte_case(rec, &msg));
+        if let layout::Node::Len16(c) = &tr[rd_at] {
+            rdata.clear();
+            if layout::serialize(c, &mut rdata) {
+                let e = Entry::Rdata { rtype, off: 0 };
+                judge(e, &rdata, Some("work-bound:rdata"), false, &mut t, l, &|| byte_case(e, &rdata));
+            }
+        }
+    });
+    if l.samples.len() < 4 {
+        l.sample(json!({"family": "f8", "seed": tag, "value_x_resize_trees": n}));
+    }
+    *l.outcomes.entry("f8:value-x-resize-trees".into()).or_insert(0) += n;
+    t.flush("f8", "resize", l);
+    true
+}
+
+/// Every EDNS option code the decoder has an arm for (it yields something else than
+/// `EdnsOption::Unknown`, or it can fail) must occur in an OPT seed; client subnet in both families.
+fn opt_seed_gaps(rseeds: &[(String, u16, Vec<u8>)]) -> Vec<String> {
+    use hickory_proto::rr::rdata::opt::{EdnsCode, EdnsOption};
+    let mut seen = std::collections::BTreeSet::new();
+    let mut ecs_families = std::collections::BTreeSet::new();
+    for (_, t, w) in rseeds.iter().filter(|s| s.1 == 41) {
+        let _ = t;
+        let mut p = 0;
+        while p + 4 <= w.len() {
+            let code = u16::from_be_bytes([w[p], w[p + 1]]);
+            let len = u16::from_be_bytes([w[p + 2], w[p + 3]]) as usize;
+            seen.insert(code);
+            if code == 8 && len >= 2 {
+                ecs_families.insert(u16::from_be_bytes([w[p + 4], w[p + 5]]));
+            }
+            p += 4 + len;
+        }
+    }
+    let mut gaps = vec![];
+    for c in 0..=65535u16 {
+        let special = [&[][..], &[0, 1, 0, 0][..], &[1][..]].iter().any(|d| !matches!(EdnsOption::try_from((EdnsCode::from(c), *d)), Ok(EdnsOption::Unknown(..))));
+        if special && !seen.contains(&c) {
+            gaps.push(format!("option code {c}"));
+        }
+    }
+    for fam in [1u16, 2] {
+        if !ecs_families.contains(&fam) {
+            gaps.push(format!("client-subnet family {fam}"));
+        }
+    }
+    gaps
+}
+
+// ------------------------------------------------------------------------------------------
 // family 4: growth
 
 const GROWTH_ENTRIES: [Entry; 5] = [Entry::Message, Entry::Request, Entry::Response, Entry::TsigTbs, Entry::FrontDoor];
@@ -559,6 +632,13 @@ fn replay(ctx: &Ctx, case: &Value) {
                         run_win_item(it, l);
                     }
                 }
+                "f8" if f.len() == 3 => {
+                    let thorough = f[1] == "true";
+                    let rseeds = seeds::rdata_seeds(&rdata_alphabet(thorough));
+                    if let Some((tag, t, w)) = f[2].parse::<usize>().ok().and_then(|i| rseeds.get(i)) {
+                        run_f8_item(tag, *t, w, thorough, l);
+                    }
+                }
                 "resize" if f.len() == 3 => {
                     let rseeds = seeds::rdata_seeds(&rdata_alphabet(f[1] == "true"));
                     if let Some((tag, t, w)) = f[2].parse::<usize>().ok().and_then(|i| rseeds.get(i)) {
@@ -599,7 +679,7 @@ fn main() {
     }
 
     ctx.set_rule(
-        "E-ENUM, seven families, every element decoded by the real entry points (Message::from_vec, Request::from_bytes, the \
+        "E-ENUM, eight families, every element decoded by the real entry points (Message::from_vec, Request::from_bytes, the \
          server's front door ServerContext::handle_request via the verif hook with a probing RequestHandler, \
          DnsResponse::from_buffer, signed_bitmessage_to_buf, Record::read, Name::read, RData::read; the deferred CAA value \
          parsers run on every decoded CAA record). \
@@ -620,6 +700,11 @@ fn main() {
          field is set to EVERY length of its width (0..255; 16-bit: 0..300, 511, 512, the largest that fits 65,535 octets) with \
          its content truncated or padded (00 / ff / 'a') and all enclosing lengths recomputed, and every PAIR of RDATA fields \
          to {0,1,39,40,63,64,255}^2; each tree is decoded as message, request, front door, TSIG parse, record and bare RDATA. \
+         f8: VALUE x RESIZE: every fixed octet of every RDATA seed (OPT seeds hold every option code the decoder has an arm \
+         for, client subnet in both families: self-check) set to EVERY value 0..255, crossed with every consistent resize of a \
+         variable-length field to {0..20, 31..33, 63..65, 255} (quick: octet and field siblings of the same (sub)structure — RDATA \
+         root, one EDNS option, one SvcParam value — labels excluded, through message / record / RDATA; thorough: every octet x \
+         every field of the RDATA, all entry points). \
          f4: 22 growth families for n = 1..64, 128, \
          256, ... up to the largest n that fits 65,535 octets, through message / request / front door / response / TSIG entry. \
          Oracle: returns (no panic); decoder ticks <= 256*len+4096 and (f4) ticks/len at any size <= 4x the maximum seen up \
@@ -642,16 +727,18 @@ fn main() {
     // calibration: honest seeds, every message-level entry point
     let mut honest_max = 0.0f64;
     let mut honest_ok = 0u64;
+    // (both notes depend on the code under test, so they are observations, never exit 2: C01 does not demand that a
+    // valid message is accepted — C02 does —, and work beyond the bound is judged on every input anyway)
     for s in &msg_seeds {
-        let o = decode(Entry::Message, &s.bytes);
+        let Ok(o) = catch(|| decode(Entry::Message, &s.bytes)) else { continue };
         if !o.ok {
-            ctx.machinery_failure(&format!("honest seed {} rejected by Message::from_vec: {}", s.tag, o.err));
+            ctx.with_local(|l| l.outcome("obs:honest-seed-rejected-by-Message::from_vec"));
         } else {
             honest_ok += 1;
         }
         honest_max = honest_max.max(o.ticks as f64 / s.bytes.len() as f64);
         if o.ticks > bound(s.bytes.len()) / 4 {
-            ctx.machinery_failure(&format!("work bound is not generous: honest seed {} needs {} ticks for {} octets", s.tag, o.ticks, s.bytes.len()));
+            ctx.with_local(|l| l.outcome("obs:honest-seed-needs-more-than-a-quarter-of-the-work-bound"));
         }
     }
     ctx.set("honest_seeds", json!(honest_ok));
@@ -708,6 +795,20 @@ fn main() {
         ctx.machinery_failure("f6: a layout table does not describe its seed RDATA");
     }
 
+    // family 8: value x consistent resize
+    let gaps = opt_seed_gaps(&rseeds);
+    ctx.set("opt_option_arms_without_seed", json!(gaps));
+    if !gaps.is_empty() {
+        ctx.machinery_failure(&format!("EDNS option arms of the decoder without an OPT seed: {gaps:?}"));
+    }
+    ctx.par_run(rseeds.len() as u64, 1, |i, l| {
+        ctx.watch(l.worker, || format!("f8|{thorough}|{i}"));
+        let (tag, t, w) = &rseeds[i as usize];
+        if !run_f8_item(tag, *t, w, thorough, l) {
+            l.outcome("machinery:layout-table-does-not-fit-seed");
+        }
+    });
+
     // family 4
     let mut gitems: Vec<(&'static str, bool, Entry)> = vec![];
     for f in families::GROWTH_FAMILIES.iter() {
@@ -759,7 +860,7 @@ fn main() {
         "f2:message:accepted", "f2:request:accepted", "f2:rdata:accepted", "f2:name:accepted", "f3:message:accepted", "f3:request:accepted",
         "f3:tsig-tbs:accepted", "f3:rdata:accepted", "f3:record:accepted", "f4:message:accepted", "f3:message:rejected",
         "f3:seed-accepted", "f3:frontdoor:accepted", "f3:frontdoor:rejected", "f2:frontdoor:accepted", "f4:frontdoor:accepted",
-        "f6:resize:accepted", "f6:resize:rejected", "f1b:rdata:accepted", "f1b:rdata:rejected", "f5:message:accepted", "f5:message:rejected", "err:frontdoor:FormErr",
+        "f8:resize:accepted", "f8:resize:rejected", "f6:resize:accepted", "f6:resize:rejected", "f1b:rdata:accepted", "f1b:rdata:rejected", "f5:message:accepted", "f5:message:rejected", "err:frontdoor:FormErr",
         "err:frontdoor:NotImp", "err:frontdoor:no-response",
     ] {
         if ctx.outcome_count(k) == 0 {
